@@ -7,6 +7,8 @@ CONSTANTS
   MaxLen = 2
   WithBad = FALSE
   WithDup = TRUE
+  WithSplit = FALSE
+  C0peer = "a0"
   MaxLevel = 4
 INVARIANTS TypeOK PropertyHolds
 CHECK_DEADLOCK FALSE
